@@ -122,6 +122,10 @@ def gen_terms(tier):  # noqa: C901
             if size % 2 == 0 and size:
                 yield "Reshape", ["reshape", ph("a", old, "int64"), [2, -1], "F"]
                 yield "Reshape", ["reshape", ph("a", old, "int64"), [-1, 2], "C"]
+    # the order argument as NumPy also accepts it (lower case)
+    for old, new in [((2, 3), [3, 2]), ((2, 3, 4), [4, 6]), ((6,), [2, 3]), ((2, 3), [6])]:
+        for order in "cf":
+            yield "Reshape", ["reshape", ph("a", old, "int64"), new, order]
     # ---- Roll
     for n in range(0, 6):
         for sh in range(-2 * n - 1, 2 * n + 2):
